@@ -162,7 +162,13 @@ Example C02_tseitin_count_examples :
   count_models 3 (tseitin_ir 3 [(1,2);(1,3);(2,3)] None) = 0 /\
   (* two components + an isolated vertex, even charges: 2^(4-6+3) *)
   num_components 6 [(1,2);(1,3);(2,3);(4,5)] = 3 /\
-  count_models 4 (tseitin_ir 6 [(1,2);(1,3);(2,3);(4,5)] (Some [false; true; true; true; true])) = 2.
+  count_models 4 (tseitin_ir 6 [(1,2);(1,3);(2,3);(4,5)] (Some [false; true; true; true; true])) = 2 /\
+  (* the same graph through the union-find: 3 classes, edge 1 = (1,2) closes the triangle (the head of the list is
+     inserted last), the charges are even on every component; the default charge on a triangle is not *)
+  uf_components 6 [(1,2);(1,3);(2,3);(4,5)] = 3 /\ free_edges [(1,2);(1,3);(2,3);(4,5)] = [1] /\
+  connected [(1,2);(1,3);(2,3);(4,5)] 2 3 = true /\ connected [(1,2);(1,3);(2,3);(4,5)] 3 4 = false /\
+  tseitin_components_even 6 [(1,2);(1,3);(2,3);(4,5)] (Some [false; true; true; true; true]) = true /\
+  tseitin_components_even 3 [(1,2);(1,3);(2,3)] None = false.
 Proof. vm_compute. repeat split. Qed.
 
 (* ------------------------------------------------------------------ *)
